@@ -3,11 +3,12 @@ import Amqp.Model.Paging
 open Amqp Amqp.Paging
 namespace Driver.C20
 /-
-  c20.script <op> <vhost|path hex> <showAll 0|1> <name hex|none> <flag> <pageSize|none> <fuel> <script>
+  c20.script <op> <vhost|path hex|default> <showAll 0|1> <name hex|none> <flag> <pageSize|none|default> <fuel> <script>
       run the model of `<op>` (a row of Gen.Paging.wrappers, or `http` = HTTPClient.list with the
       hex field as path) against a scripted server: `;`-separated replies, reply i answers request i:
       E | L<a>-<b> | P<page|_>/<page_count|_>/<a>-<b>|_      (missing entries = E)
-  c20.good <op> <vhost hex> <showAll> <name> <flag> <pageSize|none> <n> <submask> <rxmask>
+  c20.good <op> <vhost hex|default> <showAll> <name> <flag> <pageSize|none|default> <n> <submask> <rxmask>
+      (`default` = the caller omitted the argument: the default regenerated from the wrapper's signature applies)
       run it against the model's own well-behaved server holding items 0..n-1; an item passes a
       name filter equal to the caller's name according to <rxmask> when use_regex=true was sent,
       <submask> otherwise ('0'/'1' strings, `-` = empty); any other filter selects nothing.
@@ -85,18 +86,26 @@ def showOutcome (o : Outcome Nat) : String :=
   let shown := if rs.length ≤ 4 then rs else rs.take 3 ++ [rs.getLast!]
   s!"reqs={rs.length} ck={ck} " ++ " ".intercalate shown ++ " res=" ++ showRes o.result
 
-def runOp (op : String) (srv : Server Nat) (fuel : Nat) (vh : String) (showAll : Bool)
-    (name : Option String) (flag : PyFlag) (ps : Option Int) : Option (Outcome Nat) :=
-  if op = "http" then some (listAll srv fuel vh name flag ps)
+/-- `vh`/`ps` = none: the caller omitted the argument, the wrapper's own default applies -/
+def runOp (op : String) (srv : Server Nat) (fuel : Nat) (vh : Option String) (showAll : Bool)
+    (name : Option String) (flag : PyFlag) (ps : Option (Option Int)) : Option (Outcome Nat) :=
+  if op = "http" then some (listAll srv fuel (vh.getD "") name flag (ps.getD none))
   else match Gen.Paging.wrappers.find? (fun w => w.op == op) with
-    | some w => some (wrapperList w srv fuel vh showAll name flag ps)
+    | some w => some (wrapperList w srv fuel (vh.getD (w.defaultVhost.getD "")) showAll name flag
+        (ps.getD w.defaultPageSize))
     | none => none
+
+def parseVhost (s : String) : Option (Option String) :=
+  if s = "default" then some none else (strOfHex s).map some
+
+def parsePageSize (s : String) : Option (Option (Option Int)) :=
+  if s = "default" then some none else (parseOptInt s).map some
 
 def maskAt (m : Array Char) (i : Nat) : Bool := m.getD i '0' == '1'
 
 def handle : Handler
   | ["c20.script", op, vh, sa, nm, fl, ps, fuel, script] =>
-    match strOfHex vh, parseOptStr nm, parseFlag fl, parseOptInt ps, fuel.toNat? with
+    match parseVhost vh, parseOptStr nm, parseFlag fl, parsePageSize ps, fuel.toNat? with
     | some vh, some nm, some fl, some ps, some fuel =>
       let replies := ((script.splitOn ";").map parseReply).toArray
       match runOp op (scripted replies) fuel vh (sa == "1") nm fl ps with
@@ -104,7 +113,7 @@ def handle : Handler
       | none => some "unknown-op"
     | _, _, _, _, _ => some "bad-op"
   | ["c20.good", op, vh, sa, nm, fl, ps, n, sub, rx] =>
-    match strOfHex vh, parseOptStr nm, parseFlag fl, parseOptInt ps, n.toNat? with
+    match parseVhost vh, parseOptStr nm, parseFlag fl, parsePageSize ps, n.toNat? with
     | some vh, some nm, some fl, some ps, some n =>
       let subm := sub.toList.toArray
       let rxm := rx.toList.toArray
